@@ -107,6 +107,38 @@ def run(chk):
                 chk.violation(f"c07:oracle-self-check:{tmpl[0]}", "reference evaluator: tco on/off differ (oracle bug)", {"n": n})
     for c, ci, cm, co, ev in res[:2] + res[-1:]:
         chk.sample({"program": c.src, "limits": {"depth": c.depth, "rec": c.rec, "calls": c.calls}, "impl": ci})
+    # ---- the other documented carriers of the tail slot (cast, tuple `and`, optional or / map_or / and, to_str of a str):
+    #      outside the core model; implementation vs closed form, under a depth limit far below the iteration count
+    carriers = [
+        ("cast", "fn t(n: int, acc: int)->int{ if(n == 0, acc, cast<int>(t(n - 1, acc + n))) }", lambda n: f"(int S {n * (n + 1) // 2})"),
+        ("tuple-and", "fn t(n: int, acc: int)->int{ if(n == 0, acc, ().and(t(n - 1, acc + n))) }", lambda n: f"(int S {n * (n + 1) // 2})"),
+        ("optional-or", "fn t(n: int, acc: int)->int{ if(n == 0, acc, none().or(t(n - 1, acc + n))) }", lambda n: f"(int S {n * (n + 1) // 2})"),
+        ("optional-map_or", "fn t(n: int, acc: int)->int{ if(n == 0, acc, none().map_or((x: int)->{x}, t(n - 1, acc + n))) }", lambda n: f"(int S {n * (n + 1) // 2})"),
+        ("optional-and", "fn t(n: int, acc: int)->Optional<int>{ if(n == 0, some(acc), some(0).and(t(n - 1, acc + n))) }", lambda n: f"(some (int S {n * (n + 1) // 2}))"),
+        ("if_error-specific", 'fn t(n: int, acc: int)->int{ if(n == 0, acc, if_error(error("boom"), "boo", t(n - 1, acc + n))) }', lambda n: f"(int S {n * (n + 1) // 2})"),
+    ]
+    creqs, cmeta = [], []
+    for name, fn, want in carriers:
+        for n in [0, 1, 2, 10, 1000] + ([] if quick else [50000]):
+            for lim in ({}, {"depth": 8}, {"depth": 8, "recursion": n}, {"recursion": max(n - 1, 0)}):
+                creqs.append({"op": "run", "src": fn + f"\nlet r = t({n}, 0);\n", "get": ["r"], "limits": lim})
+                cmeta.append((name, n, lim, want(n)))
+    for (name, n, lim, want), r in zip(cmeta, run_harness(creqs, per_req_timeout=60.0)):
+        chk.evaluations += 1
+        chk.count("c07:carrier:" + name)
+        chk.nontrivial.add(("carrier", name, n, json.dumps(lim)))
+        ci = cg.canon_impl(r, ["r"])
+        expect_viol = "recursion" in lim and n > lim["recursion"]
+        if expect_viol:
+            ok = ci["outcome"] == "viol:MaximumRecursion"
+        else:
+            ok = ci["outcome"] == "ok" and r["vals"]["r"] == want
+        if not ok:
+            kind = ci["outcome"].split(" ")[0].replace(":", "-")
+            chk.violation(f"c07:carrier:{name}:{kind if ci['outcome'] != 'ok' else 'wrong-value'}",
+                          f"tail self-call through the documented carrier `{name}`, {n} iterations under limits {lim}: implementation {json.dumps(ci)[:300]}; "
+                          f"expected {'MaximumRecursion' if expect_viol else want} (a tail call consumes no depth and is bounded by the recursion limit only)",
+                          {"src": creqs[0]["src"] if False else fn + f"\nlet r = t({n}, 0);\n", "get": ["r"], "limits": lim, "expected": {"outcome": "viol:MaximumRecursion"} if expect_viol else {"outcome": "ok", "vals": {"r": cg.strip_tags(want)}, "out": []}})
     # random programs with tail-recursive helpers mixed in
     extra = []
     for i in range(60 if quick else 1500):
